@@ -96,6 +96,29 @@ theorem positional_eq_named_va (ps : List (Name × Option V)) (va : Name) (vs : 
     bind ⟨ps, some va⟩ ⟨vs.take j, ((ps.drop j).map (·.1)).zip (vs.drop j)⟩ = bind ⟨ps, some va⟩ ⟨vs, []⟩ :=
   bind_mixed_va ps va vs j hl hj
 
+/-- The ORDER in which named arguments are written does not matter: for every formal list
+without rest parameter, every positional prefix and any two permutations of the same named
+arguments (distinct names), `bind` succeeds on both or on neither, with identical
+bindings.  (On failure the `unexpected` error names the first left-over key, which does
+depend on the order — hence `toOption`.) -/
+theorem named_order_irrelevant (ps : List (Name × Option V)) (pos : List V) (n1 n2 : List (Name × V))
+    (h : n1.Perm n2) (hn : (n1.map (·.1)).Nodup) :
+    (bind ⟨ps, none⟩ ⟨pos, n1⟩).toOption = (bind ⟨ps, none⟩ ⟨pos, n2⟩).toOption :=
+  bind_named_perm ps pos n1 n2 h hn
+
+/-- Hence any mixed call — a positional prefix and the remaining arguments by name in ANY
+order — binds like the all-positional call. -/
+theorem positional_eq_named_any_order (ps : List (Name × Option V)) (vs : List V) (j : Nat)
+    (named : List (Name × V)) (hl : vs.length ≤ ps.length) (hj : j ≤ vs.length)
+    (hp : named.Perm (((ps.drop j).map (·.1)).zip (vs.drop j))) (hn : (named.map (·.1)).Nodup) :
+    (bind ⟨ps, none⟩ ⟨vs.take j, named⟩).toOption = (bind ⟨ps, none⟩ ⟨vs, []⟩).toOption := by
+  rw [named_order_irrelevant ps (vs.take j) named _ hp hn, positional_eq_named ps vs j hl hj]
+
+example : (bind (V := Nat) ⟨[(['a'], none), (['b'], none), (['c'], some 9)], none⟩ ⟨[1], [(['c'], 3), (['b'], 2)]⟩).toOption =
+          (bind ⟨[(['a'], none), (['b'], none), (['c'], some 9)], none⟩ ⟨[1, 2, 3], []⟩).toOption :=
+  positional_eq_named_any_order (V := Nat) _ [1, 2, 3] 1 _ (by decide) (by decide)
+    (List.Perm.swap _ _ _) (by decide)
+
 /-- All-named special case (`j = 0`). -/
 theorem all_named_eq_positional (ps : List (Name × Option V)) (vs : List V) (hl : vs.length ≤ ps.length) :
     bind ⟨ps, none⟩ ⟨[], (ps.map (·.1)).zip vs⟩ = bind ⟨ps, none⟩ ⟨vs, []⟩ := by
